@@ -10,6 +10,7 @@ type Plan struct {
 	Urgent    bool                    `json:"urgent"` // clock advances only when no internal step is pending
 	Sched     string                  `json:"sched"`  // "random" | "pct" | "replay" | "free"
 	Depth     int                     `json:"depth,omitempty"`
+	Burst     bool                    `json:"burst,omitempty"` // now and then release all parked goroutines at once
 	Lanes     [][]Cmd                 `json:"lanes"`
 	Clients   [][]Req                 `json:"clients"`
 	Targets   map[string]TargetScript `json:"targets"`
